@@ -239,8 +239,8 @@ func runC16(seed int64, tier string, sc *Script, withBody bool) map[string]any {
 			for k := 0; k < rng.Intn(3); k++ {
 				hints = append(hints, scopePool[rng.Intn(len(scopePool))])
 			}
-			if single {
-				h, hints = fixedHost, fixedHints
+			if single && ci%2 == 0 {
+				h, hints = fixedHost, fixedHints // half of them used as intended: one registry, one scope set
 			}
 			host := hosts[h]
 			ctx := context.Background()
@@ -261,7 +261,7 @@ func runC16(seed int64, tier string, sc *Script, withBody bool) map[string]any {
 				for k := 0; k < 1+rng.Intn(2); k++ {
 					chal = append(chal, scopePool[rng.Intn(len(scopePool))])
 				}
-				if single {
+				if single && ci%2 == 0 {
 					chal = append([]string(nil), fixedChal...)
 				}
 				if rng.Intn(3) == 0 {
@@ -329,6 +329,7 @@ func runC16(seed int64, tier string, sc *Script, withBody bool) map[string]any {
 					v = fmt.Sprintf("over(sends=%d,fetches=%d)", sends, fetches)
 				}
 				sc.Op(v, "au bound cache=single out=%s", strings.ReplaceAll(outStr, " ", ","))
+				sc.Op(outStr, "au do host=%d hint=%d pw=%d rt=%d at=%d oauth=%d r1=%s r2=%s fetch=%s fb=1", h, keyOf(hints), b(cs.pw), b(cs.rt), b(cs.at), b(client.ForceAttemptOAuth2), r1mod, r2mod, fetchMod)
 			} else if withBody {
 				if cacheKind != 0 {
 					sc.Def("au new")
